@@ -37,6 +37,10 @@ DEFS = {
     # the recursive call sits under 80 levels of argument nesting: frames x nesting is what the Go stack pays for
     "rec-nested-args": "(defun hz-f (n) " + "(+ 1 " * 80 + "(hz-f n)" + ")" * 80 + ")",
     "rec-nested-let": "(defun hz-f (n) " + "(let ((v " * 40 + "(hz-f n)" + ")) v)" * 40 + ")",
+    # recursion carried by builtins calling builtins over nested data: no lambda body, no re-entry of eval; 30000
+    # levels of two frames each, more than the physical bound admits, so only an error can come back
+    "rec-builtin-data": "(defun hz-f (n) (let ((x (list + 0 (list 1 2)))) (dotimes (i 30000) (set! x (list apply foldl (list x)))) (apply foldl x)))",
+    "rec-builtin-data-map": "(defun hz-f (n) (let ((x (list + 0 (list 1 2)))) (dotimes (i 30000) (set! x (list apply foldl (list x)))) (map 'list (lambda (y) (apply foldl y)) (list x))))",
     "rec-thread": "(defun hz-f (n) (thread-first n (hz-f) (list)))",
     "loop-dotimes": "(defun hz-f (n) (dotimes (i 1000000000000) i))",
     "loop-tail-growing": "(defun hz-g (acc) (hz-g (cons 1 acc))) (defun hz-f (n) (hz-g ()))",
